@@ -358,32 +358,57 @@ def build_query(ctx: Ctx, ob, extra_axioms=()):
     return fs + list(extra_axioms) + ax, goal
 
 
-def solve(ctx: Ctx, ob, timeout_ms=None, want_model=False, extra_axioms=(), use_cvc5=True):
+def solve(ctx: Ctx, ob, timeout_ms=None, want_model=False, extra_axioms=(), use_cvc5=True, mbqi=True, cvc5_s=None):
+    """z3 (E-matching only first, then with MBQI), then cvc5 on z3's unknowns."""
     t0 = time.time()
-    hyps, goal = build_query(ctx, ob, extra_axioms)
-    s = z3.Solver()
-    s.set("timeout", timeout_ms or Z3_TIMEOUT_MS)
-    for h in hyps:
-        s.add(h)
-    s.add(z3.Not(goal))
-    r = s.check()
+    with ctx:
+        hyps, goal = build_query(ctx, ob, extra_axioms)
+    tmo = timeout_ms or Z3_TIMEOUT_MS
+    reason = ""
+    last = None
+    for cfg in (("ematch", False, max(1000, tmo // 4)), ("mbqi", True, tmo)):
+        s = z3.Solver()
+        s.set("timeout", cfg[2])
+        if not cfg[1]:
+            s.set("smt.mbqi", False)
+        for h in hyps:
+            s.add(h)
+        s.add(z3.Not(goal))
+        r = s.check()
+        last = s
+        dt = time.time() - t0
+        if r == z3.unsat:
+            return Result("proved", "z3", dt)
+        if r == z3.sat and cfg[1]:
+            return Result("refuted", "z3", dt, model=s.model())
+        if r == z3.sat and not _has_quantifiers(hyps + [goal]):
+            return Result("refuted", "z3", dt, model=s.model())
+        reason = s.reason_unknown() if r == z3.unknown else "sat without mbqi (incomplete)"
     dt = time.time() - t0
-    if r == z3.unsat:
-        return Result("proved", "z3", dt)
-    if r == z3.sat:
-        return Result("refuted", "z3", dt, model=s.model())
-    reason = s.reason_unknown()
     if not use_cvc5:
         return Result("unknown", "z3", dt, reason=f"z3: {reason}")
-    # second opinion: cvc5 on the same query
-    r2 = _cvc5(s)
+    r2 = _cvc5(last, cvc5_s)
     dt = time.time() - t0
     if r2 == "unsat":
         return Result("proved", "cvc5", dt)
     return Result("unknown", "z3+cvc5", dt, reason=f"z3: {reason}; cvc5: {r2}")
 
 
-def _cvc5(solver):
+def _has_quantifiers(fs):
+    seen = set()
+    stack = list(fs)
+    while stack:
+        t = stack.pop()
+        if t.get_id() in seen:
+            continue
+        seen.add(t.get_id())
+        if z3.is_quantifier(t):
+            return True
+        stack.extend(t.children())
+    return False
+
+
+def _cvc5(solver, tlimit_s=None):
     exe = "/usr/bin/cvc5"
     if not os.path.exists(exe):
         return "absent"
@@ -395,8 +420,8 @@ def _cvc5(solver):
         f.write("(set-logic ALL)\n" + txt)
         path = f.name
     try:
-        p = subprocess.run([exe, f"--tlimit={CVC5_TIMEOUT_S * 1000}", path], capture_output=True, text=True,
-                           timeout=CVC5_TIMEOUT_S + 10)
+        tl = tlimit_s or CVC5_TIMEOUT_S
+        p = subprocess.run([exe, f"--tlimit={tl * 1000}", path], capture_output=True, text=True, timeout=tl + 10)
         out = p.stdout.strip().splitlines()
         return out[0] if out else (p.stderr.strip()[:80] or "no-output")
     except subprocess.TimeoutExpired:
